@@ -146,17 +146,31 @@ def run(ctx, crate):
             (s, k, name_t, lines_t) = pf[0]
             an = w.analyze[0]
             pat = ("elem", w.pat)
+            via_list = None
+            fk, fl = T.field_of(k), T.field_of(lines_t) if lines_t is not None else None
+            if fk and fl and fk[0] == fl[0] and fk[1] == 0 and fl[1] == 1 and fk[0][0] == "elem":
+                # the per-pattern results of one file pass through a list of (pattern, lines) pairs first: look through it when the list is created empty,
+                # filled by one push inside the loop over the patterns and read only by the loop that records its elements, every one of them
+                import order as O2
+                L = fk[0][1][1] if fk[0][1][0] == "iter" else fk[0][1]
+                fills = [x for x in w.sites if x.args and O2.root_object(x.args[0]) == L and x.path.rsplit("::", 1)[-1] not in ("len", "iter", "into_iter", "is_empty", "deref", "next", "drop")]
+                lps = [lp for lp in O2.loops_of_body(b) if (lp.iterable == L or (lp.iterable[0] == "iter" and lp.iterable[1] == L)) and s.bb in lp.blocks]
+                if L[0] == "call" and L[1].rsplit("::", 1)[-1] in ("new", "with_capacity") and len(fills) == 1 and fills[0].path.endswith("::push") and len(fills[0].args) == 2 \
+                        and fills[0].args[1][0] == "agg" and fills[0].args[1][1] == "tuple" and len(fills[0].args[1][3]) == 2 and len(lps) == 1 and not lps[0].exits()[1] \
+                        and S.block_guard(b, s.bb) == S.block_guard(b, lps[0].head) and b.dominates(fills[0].bb, s.bb) is False and b.reaches(fills[0].bb, lps[0].head):
+                    via_list = fills[0]
+                    k, lines_t = fills[0].args[1][3][0], fills[0].args[1][3][1]
             c1 = k == pat
             c2 = lines_t == an.result and len(an.args) == 3 and an.args[2] == pat
             c3 = bool(T.calls_in(name_t, "Path::file_name")) and w.reads and T.calls_in(name_t, "Path::file_name")[0][2][0] == w.reads[0].args[0]
             c4 = w.reads and T.contains(an.args[0], w.reads[0].result)
-            gs = S.block_guard(b, s.bb)
+            gs = S.block_guard(b, (via_list or s).bb)
             ga = S.block_guard(b, an.bb)
             extra = []
             if gs and ga and len(gs) == 1 and len(ga) == 1:
                 extra = sorted(set(gs[0]) - set(ga[0]))
             c5 = extra == ["gt(len(%s), 0)" % show(an.result)] or extra == []
-            loops_ok = len(b.loops_of(an.bb)) == 2 and b.loops_of(s.bb) == b.loops_of(an.bb)
+            loops_ok = len(b.loops_of(an.bb)) == 2 and b.loops_of((via_list or s).bb) == b.loops_of(an.bb) and (via_list is None or len(b.loops_of(s.bb)) == 2)
             obs.append(Ob("R03.perfile", w.path, "per-file result pushed under its own pattern with the file's name",
                           bool(c1 and c2 and c3 and c4 and c5 and loops_ok), site=s.where,
                           expected="for p in patterns: lines = analyze(content(file), _, p); if non-empty: entry(p).or_insert([]).push((name(file), lines))",
